@@ -205,7 +205,7 @@ func (e *Exec) drain(main *Thread) {
 
 // yield: a scheduling point where other threads may be chosen (pre-emption).
 func (e *Exec) preemptPoint(th *Thread) {
-	if e.preemptBudget <= 0 || e.local != nil {
+	if e.preemptBudget <= 0 || e.local != nil || e.preemptOff {
 		return
 	}
 	var others []*Thread
